@@ -18,6 +18,7 @@ from ..core import CaseResult
 
 PROP = "C20"
 LEVEL = "model_checking"
+SECOND_SCHEDULE = 0  # stride of the reverse-order history pass (0 = off, 1 = every case)
 RULE = ("state = the switch; operations = 8 assignments (True, False, None, 0, 1, 'True', numpy True_/False_) and calls of u_to_euler, "
         "u_to_rod, u_to_ubi, ubi_to_u, ubi_to_u_and_eps, ub_to_u_b, euler_to_u (tools and laue) and Umis on classified inputs built from the "
         "40 (quick) / 272 (thorough) integer-quaternion rotations: valid, float32-rounded, perturbed by 5e-8 in each entry (valid), "
@@ -292,6 +293,50 @@ def check_case(case):
                 goto(s)
                 for tag, fn, label, thunk, rej in calls:
                     check_call(r, s, "%s:%s" % (tag, fn), fn, label, thunk, rej, ref_cache)
+            # history on argument objects: one float64 array that passes the checks, is then edited in place by the caller to an
+            # invalid matrix (must be rejected), and restored (must pass again) - in every reachable switch state
+            if case["kind"] == "bfs":
+                import xfab.laue
+                import xfab.symmetry
+                import xfab.tools
+
+                mod = {"tools": xfab.tools, "laue": xfab.laue}[mname]
+                q0, R0 = alph.quat_rots(case["N"])[case["lo"]]
+                fns = [("u_to_euler", lambda M: mod.u_to_euler(M)), ("u_to_rod", lambda M: mod.u_to_rod(M)), ("u_to_ubi", lambda M: mod.u_to_ubi(M, CELL))]
+                if mname == "tools":
+                    U0 = alph.quat_to_mat((2, 1, 0, -1))
+                    fns += [("Umis.2", lambda M: xfab.symmetry.Umis(U0, M, 7)), ("Umis.1", lambda M: xfab.symmetry.Umis(M, U0, 3))]
+                for s in sorted(seen, reverse=True):
+                    goto(s)
+                    for fname, f in fns:
+                        X = np.array(R0, float)
+                        seq = [("valid", None), ("edited+0.3", 0.3), ("restored", -0.3), ("edited+0.3 again", 0.3)]
+                        for label, d in seq:
+                            if d is not None:
+                                X[0, 1] += d
+                            kind, val = run_call(lambda: f(X))
+                            want_reject = s and label.startswith("edited")
+                            r.evals += 1
+                            r.transitions += 1
+                            if want_reject != (kind == "checks"):
+                                r.violation("%s:q=%s:%s:reused-array:%s:state=%s" % (mname, q0, fname, label, s),
+                                            "the checks look at the CURRENT contents of an array the caller has edited in place since an earlier call",
+                                            "checks" if want_reject else "no checks error", kind)
+                # two invalid arguments whose defects cancel in the product U1'.U2 (both improper; A and inv(A)')
+                if mname == "tools":
+                    P = R0 @ np.diag([1.0, 1.0, -1.0])
+                    A = R0 @ np.diag([1.0, 1.25, 0.8])
+                    combos = [("both improper", P, alph.quat_to_mat((2, 1, 0, -1)) @ np.diag([-1.0, 1.0, 1.0])), ("A and inv(A)'", A, np.linalg.inv(A).T),
+                              ("same improper twice", P, P)]
+                    for s in sorted(seen, reverse=True):
+                        goto(s)
+                        for label, M1, M2 in combos:
+                            for cs_ in (1, 7):
+                                kind, val = run_call(lambda: xfab.symmetry.Umis(M1, M2, cs_))
+                                r.evals += 1
+                                if bool(s) != (kind == "checks"):
+                                    r.violation("tools:q=%s:Umis:%s:cs%d:state=%s" % (q0, label, cs_, s), "Umis rejects two invalid orientation matrices even when their product is a rotation",
+                                                "checks" if s else "no checks error", kind)
             r.states = len(seen)
             r.extra = {"reachable": sorted(map(str, seen))}
         else:
